@@ -29,6 +29,7 @@ MANIFEST = {
 }
 LENGTHS = [1, 31, 32, 33, 40]
 LETTERS = "ABCDEFGHIJKL"
+TWO_ITALIC_WORDS = "BG"
 ROWSETS = [[1, 5, 10], [13, 14, 15], [2, 3, 9]]
 
 
@@ -40,13 +41,29 @@ def bounds(tier):
     return {"lengths": [0] + (LENGTHS if tier == "quick" else LENGTHS_T), "popon_rows_per_group": 3 if tier == "quick" else 4, "groups": 3, "rollup_rows": 4}
 
 
+# how the preamble address codes are spelled: per row parity (even row, odd row), each "plain" | "italic" | "underlined" |
+# "italic-underlined" - the codes differ, the addressed row and the columns do not
+PAC_STYLES = ["plain", "italic", "underlined", "italic-underlined"]
+PAC_STYLE = ("plain", "plain")
+
+
+def _pac(row):
+    st = PAC_STYLE[row % 2]
+    return C.pac(row, 0, "italic" in st, "underlined" in st)
+
+
 def row_words(row, text, d):
     """rows of the letters C, F, I, L carry a mid-row style code (italics on) in the middle of the row: on a decoder it
     occupies one cell; the row's columns are those of the returned line (text run, code, text run)"""
     if len(text) >= 4 and text.strip()[:1] in "CFIL":
         half = (len(text) // 2) & ~1
-        return [C.pac(row, 0)] * d + C.text_words(text[:half]) + [C.MR_ITALIC] * d + C.text_words(text[half:])
-    return [C.pac(row, 0)] * d + C.text_words(text)
+        return [_pac(row)] * d + C.text_words(text[:half]) + [C.MR_ITALIC] * d + C.text_words(text[half:])
+    if len(text) >= 4 and text.strip()[:1] in TWO_ITALIC_WORDS:
+        # two italic words: italics on, first half, plain, italics on again, second half (the reader returns the pair of
+        # codes between the halves as one blank)
+        half = (len(text) // 2) & ~1
+        return [_pac(row)] * d + [C.MR_ITALIC] * d + C.text_words(text[:half]) + [C.MR_PLAIN] * d + [C.MR_ITALIC] * d + C.text_words(text[half:])
+    return [_pac(row)] * d + C.text_words(text)
 
 
 def popon_doc(groups, d, same_second):
@@ -108,7 +125,7 @@ def judge(doc, row_texts, klass):
 
     # a row with a mid-row code is returned as its two runs joined by the code's cell (a blank)
     def shown(t):
-        if len(t) >= 4 and t.strip()[:1] in "CFIL":
+        if len(t) >= 4 and t.strip()[:1] in "CFIL" + TWO_ITALIC_WORDS:
             half = (len(t) // 2) & ~1
             return t[:half] + " " + t[half:]
         return t
@@ -190,6 +207,7 @@ def shards(tier, seed):
     for depth in (2, 3, 4):
         sh.append({"k": "roll", "depth": depth, "tier": tier})
     sh.append({"k": "paint", "tier": tier})
+    sh.append({"k": "pacs", "tier": tier})
     return sh
 
 
@@ -251,6 +269,33 @@ def run_shard(d):
                     acc.case(("roll", d["depth"], lens, dd), True, res, {"mode": f"roll-up {d['depth']}", "row_lengths": lens, "doubled": dd == 2})
                     for sig, det in v:
                         acc.violation(sig, {"k": "roll", "depth": d["depth"], "texts": texts, "d": dd}, det)
+    elif d["k"] == "pacs":
+        # every pair of neighbouring rows, addressed with every spelling of the preamble address code
+        global PAC_STYLE
+        try:
+            for r in range(1, 15):
+                for st in itertools.product(PAC_STYLES, repeat=2):
+                    PAC_STYLE = st
+                    for lens in ((32, 5), (5, 32), (32, 32), (33, 1), (1, 40)):
+                        for dd in (1, 2):
+                            texts = [mk("A", lens[0]), mk("G" if lens[1] == 5 else "H", lens[1])]
+                            for mode in ("pop", "paint"):
+                                if mode == "pop":
+                                    groups = [[(r, texts[0]), (r + 1, texts[1])]]
+                                    doc = popon_doc(groups, dd, False)
+                                    case = {"k": "pop", "groups": groups, "d": dd, "same_second": False, "pac_style": list(st)}
+                                else:
+                                    doc = painton_doc([r, r + 1], texts, dd)
+                                    case = {"k": "paint", "rows": [r, r + 1], "texts": texts, "d": dd, "pac_style": list(st)}
+                                v, res = judge(doc, texts, {"pop": "pop-on", "paint": "paint-on"}[mode])
+                                acc.traces += 1
+                                acc.transitions += 2
+                                states.add(h8(("pacs", r, st, lens, mode)))
+                                acc.case(("pacs", r, st, lens, dd, mode), True, res, {"mode": mode, "rows": [r, r + 1], "preamble_spelling_even_odd_row": list(st), "row_lengths": lens, "doubled": dd == 2})
+                                for sig, det in v:
+                                    acc.violation(sig + "/preamble-spelling:" + "+".join(sorted(set(st))), case, det)
+        finally:
+            PAC_STYLE = ("plain", "plain")
     else:
         for rows in ([15], [14, 15], [1, 8, 15], [12, 13, 14, 15], [1, 2, 8, 9]):
             for lens in itertools.product(LENGTHS, repeat=len(rows)):
@@ -281,6 +326,14 @@ def replay(case):
     if case.get("reuse"):
         return shared.replay(reuse_items(), reuse_eval, case["index"])
     k = case["k"]
+    global PAC_STYLE
+    if case.get("pac_style"):
+        PAC_STYLE = tuple(case["pac_style"])
+        try:
+            out = replay({kk: vv for kk, vv in case.items() if kk != "pac_style"})
+        finally:
+            PAC_STYLE = ("plain", "plain")
+        return [dict(o, sig=o["sig"] + "/preamble-spelling:" + "+".join(sorted(set(case["pac_style"])))) for o in out]
     if k == "pop":
         groups = [[tuple(x) for x in g] for g in case["groups"]]
         texts = [t for g in groups for _, t in g if t]
